@@ -61,3 +61,21 @@ Definition learn_call (m : mode) (n_envs : Z) (stop : Z -> bool) (lens : list na
            (reset : bool) (num ep total : Z) :=
   let '(num0, ep0, total') := setup reset num ep total in
   (loop m n_envs total' stop lens num0, total').
+
+(* ---- PPO.train: for epoch in range(n_epochs): for minibatch in get(batch_size): [early stop by target_kl: continue_training = False;
+   break] optimizer step; _n_updates += 1; if not continue_training: break.   kl e j = the early-stop test of minibatch j of epoch e *)
+Fixpoint ppo_minibatches (js : list nat) (kl : nat -> bool) : nat * bool :=      (* optimizer steps, continue_training *)
+  match js with
+  | [] => (O, true)
+  | j :: rest => if kl j then (O, false) else let '(n, c) := ppo_minibatches rest kl in (S n, c)
+  end.
+Fixpoint ppo_epochs (es : list nat) (k : nat) (kl : nat -> nat -> bool) : nat * nat :=   (* optimizer steps, _n_updates increments *)
+  match es with
+  | [] => (O, O)
+  | e :: rest =>
+      let '(n, c) := ppo_minibatches (seq 0 k) (kl e) in
+      if c then let '(n', u') := ppo_epochs rest k kl in ((n + n')%nat, S u') else (n, 1%nat)
+  end.
+Definition ppo_train (n_epochs k : nat) (kl : nat -> nat -> bool) : nat * nat := ppo_epochs (seq 0 n_epochs) k kl.
+(* A2C.train: one pass with batch_size=None (one minibatch), one optimizer step, _n_updates += 1 *)
+Definition a2c_train : nat * nat := (1%nat, 1%nat).
